@@ -1,4 +1,79 @@
-/- C11 — model and specification (stub; see HACKING.md) -/
+/-
+  C11 — LATT + SYMM expand to the complete space group, each operator exactly once.
+
+  Operators are pairs (3×3 integer matrix, rational translation); equality is taken modulo ℤ³ (`cls`).
+
+  Model of (exact arithmetic, `Rat`; the code that exists after fixes C11_1 and C11_2):
+    LATT.__init__ / LATT.lattdict            (cards.py)    -> `centring` (table REGENERATED: Extracted/Latt.lean)
+    SymmetryElement.__eq__                   (dsrmath.py)  -> `opEq`        (`% 1` on the translations)
+    SymmetryElement.apply_latt_symm          (dsrmath.py)  -> `applyLatt`
+    SymmetryElement(…, centric=True)         (dsrmath.py)  -> `inv`
+    SymmCards.__init__                       (cards.py)    -> `[ident]`
+    SymmCards.set_latt_ops                   (cards.py)    -> `setLattOps`  (centred copies of the identity)
+    SymmCards.set_centric                    (cards.py)    -> `setCentric`  (inversion and its centred copies)
+    SymmCards.append                         (cards.py)    -> `append`      (with the `not in` test)
+    Shelxfile._parse_cards, LATT/SYMM branch (shelx.py)    -> `expandWith`, `expand`
+  The operators, the specification (`comp`, `specCentring` — the SHELXL manual's LATT table —, `fullGroup`,
+  `ValidSetting`, `Closed`) and the executable checkers are in ShelxModel/C11Core.lean, which does not import the
+  regenerated table (so the kernel checks over the tabulated settings are not redone when only `lattdict` changes).
+-/
+import ShelxModel.C11Core
+import ShelxModel.Extracted.Latt
+
 namespace Shelx.C11
+
+/-! ### Model -/
+
+/-- `LATT.lattdict[abs(self.N)]`; `none` is Python's KeyError -/
+def lookupLatt (tbl : List (Nat × List (Rat × Rat × Rat))) (n : Nat) : Option (List Vec) :=
+  match tbl with
+  | [] => none
+  | (k, vs) :: rest => if k = n then some (vs.map Vec.ofTriple) else lookupLatt rest n
+
+def centring (N : Int) : Option (List Vec) := lookupLatt Shelx.Extracted.lattTable N.natAbs
+
+/-- `SymmetryElement.__eq__`: same matrix and the same translations after `% 1` -/
+def opEq (a b : Op) : Bool := decide (a.m = b.m) && decide (fractV a.t = fractV b.t)
+
+/-- `x not in self._symmcards` -/
+def notIn (x : Op) (L : List Op) : Bool := !(L.any fun y => opEq y x)
+
+/-- `SymmetryElement.apply_latt_symm`: a copy translated by the centring vector -/
+def applyLatt (s : Op) (c : Vec) : Op := ⟨s.m, s.t.add c⟩
+
+/-- `SymmetryElement(symm_data, centric=True)`: matrix and translation times -1 -/
+def inv (s : Op) : Op := ⟨s.m.neg, s.t.neg⟩
+
+/-- `for symm in latt_ops: c = s.apply_latt_symm(symm); if c not in L: L.append(c)` -/
+def addCentredChecked (C : List Vec) (s : Op) (L : List Op) : List Op :=
+  C.foldl (fun L c => if notIn (applyLatt s c) L then L ++ [applyLatt s c] else L) L
+
+/-- `for symm in latt_ops: L.append(s.apply_latt_symm(symm))` -/
+def addCentred (C : List Vec) (s : Op) (L : List Op) : List Op :=
+  C.foldl (fun L c => L ++ [applyLatt s c]) L
+
+/-- `SymmCards.set_latt_ops` (called when LATT is read): centred copies of the identity -/
+def setLattOps (C : List Vec) (L : List Op) : List Op := addCentredChecked C ident L
+
+/-- `SymmCards.set_centric` (called when LATT is read and N > 0): the inversion and its centred copies -/
+def setCentric (C : List Vec) (L : List Op) : List Op := addCentred C (inv ident) (L ++ [inv ident])
+
+/-- `SymmCards.append` (one SYMM line) -/
+def append (C : List Vec) (centric : Bool) (L : List Op) (s : Op) : List Op :=
+  let L1 := addCentredChecked C s (L ++ [s])
+  if centric then addCentred C (inv s) (L1 ++ [inv s]) else L1
+
+/-- the LATT line -/
+def lattStep (C : List Vec) (centric : Bool) : List Op :=
+  let L0 := setLattOps C [ident]
+  if centric then setCentric C L0 else L0
+
+/-- LATT, then the SYMM lines in file order -/
+def expandWith (C : List Vec) (centric : Bool) (S : List Op) : List Op :=
+  S.foldl (append C centric) (lattStep C centric)
+
+/-- `Shelxfile.symmcards` after `LATT N` and the `SYMM` lines `S` -/
+def expand (N : Int) (S : List Op) : Option (List Op) :=
+  (centring N).map fun C => expandWith C (centricOf N) S
 
 end Shelx.C11
